@@ -775,8 +775,20 @@ async def run_scenario(world: World, spec, deadline_extra=0):  # noqa: C901, PLR
             t_final = None
             c = world.ov(1).circuits.get(cid)
             if c is not None and not c._closing and 1 not in world.dead:
-                world.count("final_abandon")
-                world.remove_circuit(1, cid, False)
+                # the user gives the circuit up only if it is still healthy end to end (complete path, everybody
+                # alive: its pings are answered and nothing may reclaim it).  A circuit whose far side vanished,
+                # tore down or lost its destroy must be reclaimed by the originator ITSELF through inactivity:
+                # its own pings (sent cells) must not count as activity.
+                p = world.path(1, cid)
+                healthy = (len(c.hops) >= c.goal_hops and p and p[-1][1] == "exit"
+                           and all(h[0] not in world.dead for h in p))
+                if healthy:
+                    world.count("final_abandon")
+                    world.remove_circuit(1, cid, False)
+                else:
+                    world.count("originator_left_to_inactivity")
+            elif 1 not in world.dead:
+                world.count("originator_entry_already_reclaimed")
             continue
         if not torn and now == t_tear:
             torn = True
@@ -809,7 +821,7 @@ async def run_scenario(world: World, spec, deadline_extra=0):  # noqa: C901, PLR
                 world.remove_exit(exits[0][0], exits[0][2], True)
             elif td == "exit_dies" and exits:
                 world.kill(exits[0][0])
-            # whatever the teardown, the originator stops wanting the circuit some time later
+            # a circuit that is still healthy later on is given up by its user at t_final (see there)
             # deadline: retries of a half-built circuit can last (tries0 + goal) * next_hop_timeout
             build_bound = (cfgm["circuit_timeout"] // cfgm["next_hop_timeout"] + 1 + spec["hops"]) * cfgm["next_hop_timeout"]
             t_final = odd(now + int(build_bound * TPS) + 4)
